@@ -888,6 +888,15 @@ func c15WriterCache(run *report.Run) {
 
 func C15(run *report.Run) {
 	defer c15WriterCache(run)
+	{
+		acc := &pairAcc{}
+		if run.Thorough() {
+			tallC15(run, acc, 8300, 37)
+		} else {
+			tallC15(run, acc, 4200, 101)
+		}
+		acc.flush(run)
+	}
 	runVersionPairsSerial(run, "C15", versionConfigs(run.Thorough()), checkDiffCost)
 	if run.Thorough() {
 		acc := &pairAcc{}
